@@ -120,6 +120,9 @@ func gaussMinBits(g gaussP) int {
 	b := d.boundInt().BitLen() + 2
 	if g.s < 100 { // the bound is far above any value the sampler can produce
 		b = 8
+		if g.b > p2(60) {
+			b = 45
+		}
 	}
 	if b > 61 {
 		b = 61
@@ -181,6 +184,9 @@ func cases(tier string, seed int64) []eng.Case {
 				logN := logNs[r.N(len(logNs))]
 				k := 1 + r.N(4)
 				dc := distCfg{Kind: "gauss", Sigma: g.s, Bound: g.b, Mont: mont, Tag: g.tag, ViaIface: (gi+rep)%3 == 0}
+				if g.b > p2(60) && k < 3 {
+					k = 3
+				}
 				if dc.bigPath() {
 					k = 3 + r.N(2)
 					if logN > 8 {
